@@ -75,6 +75,8 @@ def exec_fiber(case):
     try:
         a = proj.build_fiber(case["a"], default=d, shape=[shape])
         b = proj.build_fiber(case["b"], default=d, shape=[shape])
+        if case.get("act"):
+            a.setActive(tuple(case["act"]))
         a0 = a
         if op == "add_ff":
             r = a + b
